@@ -4,7 +4,7 @@ from tools import vlib, cli
 RULE = ("lua_version() on every built-in library, on all 64 subsets of the six known versions, random lists with unknown names, and "
         "base chains of generated libraries; the construct matrix (goto, label, //, bitwise ops, <const>, Luau types, compound assignment, "
         "interpolated strings, continue, LuaJIT literals, if-expressions, //=, plain 5.1) embedded in 6 contexts and parsed with the real "
-        "full_moon under each version set; the command-line tool over chains of 1-33 std files with the dialect declared only at the bottom; non-trivial = more than one or an unknown version declared, or a dialect-gated construct")
+        "full_moon under each version set; the command-line tool over chains of 1-33 std files with the dialect declared only at the bottom, sources named by path (`.lua`, `.luau`) and piped through `-`; non-trivial = more than one or an unknown version declared, or a dialect-gated construct")
 
 
 def body(ctx):
@@ -44,8 +44,16 @@ def cli_chains(ctx):
             cases = [(good, False), (bad, True)]
             if length in (1, 9):
                 cases += [(good[:-4] + "_as.luau", False), (bad[:-4] + "_as.luau", True)]
+            # … and the same sources piped through `selene -` (how editor integrations call the tool): the library decides there too
+            if length in (1, 2, 9):
+                cases += [("-:" + good, False), ("-:" + bad, True)]
             for fname, want_parse_error in cases:
-                rc, out, err = cli.run_selene(["--config", cfg, "--display-style", "json2", "--num-threads", "1", fname], d)
+                if fname.startswith("-:"):
+                    rc, out, err = cli.run_selene(["--config", cfg, "--display-style", "json2", "--num-threads", "1", "-"], d,
+                                                  stdin=open(os.path.join(d, fname[2:]), "rb").read())
+                    fname = f"- (standard input, the text of {fname[2:]})"
+                else:
+                    rc, out, err = cli.run_selene(["--config", cfg, "--display-style", "json2", "--num-threads", "1", fname], d)
                 diags, summary, badl = cli.parse_json_lines(out)
                 got = any(x.get("code") == "parse_error" for x in diags)
                 ctx.evaluations += 1
